@@ -1,6 +1,7 @@
 /- driver side of the media scripts shared by C01–C04 -/
 import IpcHub.Drv.Util
 import IpcHub.Model.MediaInst
+import IpcHub.Model.FlvCacheM
 namespace IpcHub.Drv.MediaScript
 open IpcHub.Media IpcHub.Drv
 
@@ -37,7 +38,7 @@ def observe (s : St) : String :=
   head ++ String.join per
 
 /-- run a script; after every op all consumer goroutines run until they block -/
-def runScript (hevc gop : Bool) (toks : List String) : String :=
+def runScript (hevc gop : Bool) (maxq : Nat) (toks : List String) : String :=
   let rec go (s : St) (uid : Nat) (toks : List String) (acc : List String) : List String :=
     match toks with
     | [] => acc.reverse
@@ -51,7 +52,8 @@ def runScript (hevc gop : Bool) (toks : List String) : String :=
         let s2 := s1.settle fuel
         let o := if s2.faulted then "fault" else observe s2
         go s2 uid' ts (o :: acc)
-  " ## ".intercalate (go (genInit hevc gop) 1 toks [])
+  let s0 := if maxq = 0 then genInit hevc gop else St.init genConsts maxq hevc gop
+  " ## ".intercalate (go s0 1 toks [])
 
 /-- the cache after a list of accepted packets (same function as Lemmas.packAll) -/
 def cacheAfter (c0 : Cache) (ps : List Pkt) : Cache :=
@@ -84,10 +86,33 @@ def runTrace (hevc gop : Bool) (pub : String) (cons : String) : String :=
     | none => "bad")
   " ".intercalate outs
 
-/-- `script <hevc> <gop> <op> <op> ...` | `trace <hevc> <gop> <packets> <delivered lists>` -/
+/-- FLV scripts: `F:<tagType>:<ts>:<datahex>` writes a tag, `J:<name>` attaches an FLV consumer.
+    Output: per consumer (in join order) `c<name>=uid@ts,uid@ts,...` -/
+def runFlv (gop : Bool) (toks : List String) : String :=
+  let rec go (tags : List IpcHub.FlvCacheM.FTag) (joins : List (Nat × Nat)) (toks : List String) : Option (List IpcHub.FlvCacheM.FTag × List (Nat × Nat)) :=
+    match toks with
+    | [] => some (tags, joins.reverse)
+    | t :: ts =>
+      match t.splitOn ":" with
+      | ["F", ty, tstamp, hex] =>
+        match hexToBytes hex with
+        | some b => go (tags ++ [{ uid := tags.length + 1, tagType := natOf ty, ts := natOf tstamp, data := b }]) joins ts
+        | none => none
+      | ["J", n] => go tags ((natOf n, tags.length) :: joins) ts
+      | _ => none
+  match go [] [] toks with
+  | none => "bad-op"
+  | some (tags, joins) =>
+    " ".intercalate (joins.map (fun (n, k) =>
+      let ex := IpcHub.FlvCacheM.expected gop tags k
+      let body := if ex.isEmpty then "-" else ",".intercalate (ex.map (fun t => s!"{t.uid}@{t.ts}"))
+      s!"c{n}={body}"))
+
+/-- `script <hevc> <gop> <maxq (0 = the source's limit)> <op> <op> ...` | `trace <hevc> <gop> <packets> <delivered lists>` -/
 def handle : List String → String
-  | "script" :: hevc :: gop :: ops => runScript (hevc = "1") (gop = "1") ops
+  | "script" :: hevc :: gop :: maxq :: ops => runScript (hevc = "1") (gop = "1") (natOf maxq) ops
   | ["trace", hevc, gop, pub, cons] => runTrace (hevc = "1") (gop = "1") pub cons
+  | "flv" :: gop :: ops => runFlv (gop = "1") ops
   | _ => "bad-op"
 
 end IpcHub.Drv.MediaScript
